@@ -265,6 +265,11 @@ type callCtx struct {
 	Changed   int
 	Creates   int
 	DryKeys   map[verifsim.Key]bool // package objects for which a dry-run write was issued so far
+
+	// reconciler histories only
+	EstOK           bool // the Establish call of this reconcile returned nil
+	StatusAfterEst  int  // status writes of the revision after that
+	StatusUnrecords int
 }
 
 func newWorld(fl flavour, fail func(string, ...any)) *world {
@@ -397,13 +402,47 @@ func isController(r map[string]any) bool {
 	return c
 }
 
+// monitorStatus judges the status writes a reconcile makes for its revision
+// once its Establish call has succeeded: deactivation works from
+// status.objectRefs only, so whatever the revision controls at that instant must
+// be recorded there - also when the reconcile goes on to fail (post-establish
+// hook, later status conflict).
+func (w *world) monitorStatus(v *verifsim.View, wr *verifsim.Write, c *callCtx) {
+	if !c.EstOK || wr.Sub != "status" || wr.DryRun || wr.Err != "" || wr.After == nil {
+		return
+	}
+	c.StatusAfterEst++
+	recorded := map[verifsim.Key]bool{}
+	l, _ := verifsim.Nested(wr.After, "status", "objectRefs").([]any)
+	for _, e := range l {
+		m, _ := e.(map[string]any)
+		av, _ := m["apiVersion"].(string)
+		kind, _ := m["kind"].(string)
+		name, _ := m["name"].(string)
+		recorded[verifsim.Key{Group: strings.SplitN(av, "/", 2)[0], Kind: kind, Name: name}] = true
+	}
+	for _, k := range v.All() {
+		if !isPackageObjectKind(k.GK()) || recorded[k] {
+			continue
+		}
+		if o := v.Get(k); o != nil && verifsim.ControllerUID(o) == c.Rev.UID {
+			c.StatusUnrecords++
+			v.Violate("UNRECORDED: reconcile of %s (control=%v): Establish succeeded and the reconcile writes the revision's status, but %s, which the revision controls, is not in status.objectRefs (%d references) - deactivation would never release it", c.Rev.Name, c.Control, k, len(l))
+		}
+	}
+}
+
 func (w *world) monitor(v *verifsim.View, wr *verifsim.Write) {
 	c := w.cur
 	if c == nil || !strings.HasPrefix(wr.Actor, estActor) {
 		return
 	}
+	if wr.Key.Group == pkgGroup && wr.Key.Kind == w.fl.RevKind && wr.Key.Name == c.Rev.Name {
+		w.monitorStatus(v, wr, c)
+		return
+	}
 	if !isPackageObjectKind(wr.Key.GK()) {
-		return // the reconciler's own bookkeeping on the revision (finalizer, labels, status)
+		return // the reconciler's other bookkeeping
 	}
 	if wr.DryRun {
 		if c.DryKeys == nil {
